@@ -400,6 +400,9 @@ pub fn run(p: &Params, rep: &mut Report) {
             explored += 1;
             rep.distinct(&format!("{}/{:?}/{:?}", kind, ops, trace));
             rep.count(&format!("schedules/{}/{}+{}", kind, opname(ops[0]), opname(ops[1])));
+            if rep.samples.len() < 3 && trace.len() > 4 {
+                rep.sample(json!({"store": kind, "threads": [opname(ops[0]), opname(ops[1])], "schedule": trace.iter().map(|(t, s)| format!("T{}:{}", t, s)).collect::<Vec<_>>(), "results_equal_sequential": got.iter().enumerate().map(|(i, g)| matches!(g, Ok(s) if *s == base[i])).collect::<Vec<_>>()}));
+            }
             if clean && !judge(rep, kind, ops, &base, &got, json!({"choices": chosen, "trace": trace.iter().map(|(t, s)| format!("T{}:{}", t, s)).collect::<Vec<_>>()})) {
                 clean = false;
             }
